@@ -469,6 +469,10 @@ class Ctx:
 
     # -- evidence / exit ------------------------------------------------------------------
     def finish(self, rule, level="proof", explanation=None):
+        for f in self.known["finding"]:
+            if f["property"] == self.pid and f["key"] not in self.known_matched:
+                # listed finding that this run's inputs did not reproduce: still announced, never suppresses anything
+                print("KNOWN-FINDING: property=%s %s [listed; not met by the inputs of this run]" % (self.pid, f["text"]), flush=True)
         cov = {
             "evaluations": self.evaluations,
             "distinct_nontrivial": len(self.distinct),
